@@ -461,7 +461,7 @@ theorem pc_adoptionAgency {s : State} (hm : MInv s) (subject : Str) :
     obtain ⟨hD, hH⟩ := adoptionAgencyWithFallback_delta tagCtx _ subject _ _ (tokOk_absState s ids []) hsp0
     obtain ⟨hm', hnew, htok⟩ := minv_of_delta hm he hS hok' ids L hfresh (hL _ (TcOk.self _)) hD hH
     refine ⟨hS, fun hw => hw.of_new hm he.ext htok, ?_⟩
-    refine (tr_of_phase1 hm he hS hm' hnew ids L hL).conseq ?_
+    refine (tr_of_phase1 hm he hS hm' hnew ids (FreshIds.of_size hfresh) L hL).conseq ?_
     rintro x x' hx _ ⟨hx', ⟨rest, hsup⟩, hF⟩
     subst hx'
     unfold Spec.TreeModes.adoptionAgency
@@ -475,7 +475,7 @@ theorem pc_adoptionAgency {s : State} (hm : MInv s) (subject : Str) :
 /-- a stretch in which only a parse error is noted on the side of the specification -/
 theorem Tr.err {s : State} (hm : MInv s) (w : String) :
     Tr s s [] (fun x x' => x' = { x with errors := x.errors ++ [w] }) :=
-  ⟨hm, rfl, TBSafe.Ext.refl _, [], fun x rest hx hs => ⟨{ x with errors := x.errors ++ [w] },
+  ⟨hm, rfl, TBSafe.Ext.refl _, [], FreshIds.nil _, fun x rest hx hs => ⟨{ x with errors := x.errors ++ [w] },
     ⟨⟨hx.live, hx.annot, hx.annotEl, hx.xlog⟩, by simpa using hs, rfl, rfl, rfl, [], by simp [Aux.fullLog],
       fun _ _ => rfl⟩, rfl⟩⟩
 
